@@ -490,6 +490,35 @@ func (c *fileCtx) fieldOptions(f *Field) (*descriptorpb.FieldOptions, error) {
 	if len(a.Examples) > 0 {
 		proto.SetExtension(opt(), sebufhttp.E_FieldExamples, &sebufhttp.FieldExamples{Values: a.Examples})
 	}
+	if a.Explicit {
+		int64Kind := map[string]bool{"int64": true, "uint64": true, "sint64": true, "fixed64": true, "sfixed64": true}
+		valKind := f.Kind
+		singularMsg := f.Kind == "message" && (f.Card == "one" || f.Card == "opt")
+		if !a.Nullable && f.Card == "opt" && f.Kind != "message" {
+			proto.SetExtension(opt(), sebufhttp.E_Nullable, false)
+		}
+		if !a.Unwrap && (f.Card == "rep" || f.Card == "map") {
+			proto.SetExtension(opt(), sebufhttp.E_Unwrap, false)
+		}
+		if a.Int64 == "" && int64Kind[valKind] {
+			proto.SetExtension(opt(), sebufhttp.E_Int64Encoding, sebufhttp.Int64Encoding_INT64_ENCODING_UNSPECIFIED)
+		}
+		if a.EnumEnc == "" && f.Kind == "enum" {
+			proto.SetExtension(opt(), sebufhttp.E_EnumEncoding, sebufhttp.EnumEncoding_ENUM_ENCODING_UNSPECIFIED)
+		}
+		if a.Empty == "" && singularMsg && !strings.HasPrefix(f.Ref, "google.protobuf.") {
+			proto.SetExtension(opt(), sebufhttp.E_EmptyBehavior, sebufhttp.EmptyBehavior_EMPTY_BEHAVIOR_UNSPECIFIED)
+		}
+		if a.Ts == "" && f.Kind == "message" && f.Ref == "google.protobuf.Timestamp" && f.Card != "map" {
+			proto.SetExtension(opt(), sebufhttp.E_TimestampFormat, sebufhttp.TimestampFormat_TIMESTAMP_FORMAT_UNSPECIFIED)
+		}
+		if a.Bytes == "" && f.Kind == "bytes" && f.Card != "map" {
+			proto.SetExtension(opt(), sebufhttp.E_BytesEncoding, sebufhttp.BytesEncoding_BYTES_ENCODING_UNSPECIFIED)
+		}
+		if !a.Flatten && singularMsg && !strings.HasPrefix(f.Ref, "google.protobuf.") {
+			proto.SetExtension(opt(), sebufhttp.E_Flatten, false)
+		}
+	}
 	if fo != nil {
 		c.deps[annFile] = true
 	}
@@ -601,6 +630,21 @@ func fieldRules(f *Field) (*validate.FieldRules, error) {
 		}
 		if set {
 			fr.Type = &validate.FieldRules_String_{String_: sr}
+		}
+	case "bytes":
+		// (buf.validate.field).bytes: lengths count BYTES, whatever the JSON rendering
+		br := &validate.BytesRules{}
+		set := false
+		if r.MinLen >= 0 {
+			br.MinLen = proto.Uint64(uint64(r.MinLen))
+			set = true
+		}
+		if r.MaxLen >= 0 {
+			br.MaxLen = proto.Uint64(uint64(r.MaxLen))
+			set = true
+		}
+		if set {
+			fr.Type = &validate.FieldRules_Bytes{Bytes: br}
 		}
 	case "int32", "sint32", "sfixed32", "int64", "sint64", "sfixed64", "uint32", "fixed32", "uint64", "fixed64", "float", "double":
 		if !hasNum {
